@@ -2,6 +2,7 @@ import ZenonVerif.Model.GoSem
 import ZenonVerif.Model.Num
 import ZenonVerif.Model.Rewards
 import ZenonVerif.Model.Consensus
+import ZenonVerif.Model.Pool
 /-
 Lemmas about the Go semantics module (Model/GoSem.lean) used by Props/Translated.lean. Core only.
 -/
@@ -88,5 +89,68 @@ theorem toInt64_toNat (v : BitVec 64) : Consensus.toInt64 v.toNat = v.toInt := b
 theorem toInt_zext32 (v : BitVec 32) : (BitVec.setWidth 64 v).toInt = (v.toNat : Int) := by
   have := v.isLt
   rw [toInt_eq]; simp only [BitVec.toNat_setWidth]; split <;> omega
+
+/-! ### loops over a slice: `accountPool.filterBlocksToCommit` -/
+
+/-- the counter values `o, o+1, …, o+n-1` of an upward loop starting at 0, from offset `o` -/
+def idxFrom (o n : Nat) : List (BitVec 64) := (List.range n).map (fun k => 0#64 + BitVec.ofNat 64 (o + k))
+
+theorem idxFrom_succ (o n : Nat) : idxFrom o (n + 1) = (0#64 + BitVec.ofNat 64 o) :: idxFrom (o + 1) n := by
+  unfold idxFrom
+  rw [List.range_succ_eq_map]
+  simp only [List.map_cons, List.map_map, Nat.add_zero, List.cons.injEq, true_and]
+  apply List.map_congr_left
+  intro k _
+  simp only [Function.comp, Nat.succ_eq_add_one]
+  congr 2; omega
+
+theorem upS_len_eq {α : Type} (l : List α) (h : l.length < 2 ^ 63) : upS 0#64 (len l) = idxFrom 0 l.length := by
+  unfold upS idxFrom len
+  have h0 : (0#64).toInt = 0 := by decide
+  have hl : (BitVec.ofNat 64 l.length).toInt = (l.length : Int) := by
+    rw [toInt_eq, BitVec.toNat_ofNat]
+    have : l.length % 2 ^ 64 = l.length := Nat.mod_eq_of_lt (by omega)
+    rw [this]; split <;> omega
+  rw [h0, hl]
+  simp
+
+abbrev LL := List (BitVec 64) × List (BitVec 64)
+
+theorem filterLoop_spec (isCS : BitVec 64 → Bool) (max : Nat) (blocks : List (BitVec 64))
+    (body : BitVec 64 → LL → Step LL (List (BitVec 64)))
+    (hbody : ∀ (k : Nat) (b : BitVec 64) (batch tc : List (BitVec 64)), blocks[k]? = some b → batch.length + tc.length ≤ k →
+      body (0#64 + BitVec.ofNat 64 k) (batch, tc) =
+        if isCS b then .next (batch ++ [b], tc)
+        else if tc.length + (batch ++ [b]).length > max then .brk (batch ++ [b], tc)
+        else .next ([], tc ++ (batch ++ [b]))) :
+    ∀ (rest pre batch tc : List (BitVec 64)), blocks = pre ++ rest → batch.length + tc.length ≤ pre.length →
+      ∃ b', forIn (idxFrom pre.length rest.length) (batch, tc) body = .next (b', Pool.filterGo isCS max rest tc batch) ∨
+            forIn (idxFrom pre.length rest.length) (batch, tc) body = .brk (b', Pool.filterGo isCS max rest tc batch) := by
+  intro rest
+  induction rest with
+  | nil =>
+    intro pre batch tc _ _
+    exact ⟨batch, Or.inl (by simp [idxFrom, forIn, Pool.filterGo])⟩
+  | cons b rest ih =>
+    intro pre batch tc hsplit hinv
+    have hk : blocks[pre.length]? = some b := by rw [hsplit]; simp
+    have hb := hbody pre.length b batch tc hk hinv
+    have hsplit' : blocks = (pre ++ [b]) ++ rest := by rw [hsplit]; simp
+    have hlen' : (pre ++ [b]).length = pre.length + 1 := by simp
+    rw [List.length_cons, idxFrom_succ]
+    simp only [forIn, hb, Pool.filterGo]
+    by_cases h1 : isCS b = true
+    · simp only [h1, if_true]
+      have := ih (pre ++ [b]) (batch ++ [b]) tc hsplit' (by simp; omega)
+      rw [hlen'] at this
+      exact this
+    · simp only [h1, Bool.false_eq_true, if_false]
+      by_cases h2 : tc.length + (batch ++ [b]).length > max
+      · simp only [h2, if_true]
+        exact ⟨batch ++ [b], Or.inr rfl⟩
+      · simp only [h2, if_false]
+        have := ih (pre ++ [b]) [] (tc ++ (batch ++ [b])) hsplit' (by simp; omega)
+        rw [hlen'] at this
+        exact this
 
 end ZV.Go
